@@ -128,6 +128,23 @@ def gen_case(rng, maxlen, files_fraction=0.2):
                   'pos': rng.randrange(64), 'pos2': rng.randrange(64), 'pos3': rng.randrange(64), 'n': 1}
             at = rng.randint(0, len(ops))
             ops[at:at] = [{'op': 'save'}, un] if rng.random() < 0.5 else [un]
+    if rng.random() < 0.3:
+        # a reference written before / after its target, then the target renamed (with or without a
+        # save in between)
+        b = lambda: {'r': rng.randrange(1 << 30), 'pos': rng.randrange(64), 'pos2': rng.randrange(64), 'pos3': rng.randrange(64),
+                     'n': rng.choice([1, 2, 3])}
+        seq = [dict(b(), op='ref', how=rng.choice(['add_forward', 'add_forward', 'add_backward']))]
+        if rng.random() < 0.5:
+            seq.append({'op': rng.choice(['save', 'write'])})
+        seq.append(dict(b(), op='ref', how='rename_target', all=rng.random() < 0.5))
+        at = rng.randint(0, len(ops))
+        ops[at:at] = seq
+    if base['kind'] in ('xmldoc', 'file') and rng.random() < 0.5:
+        # loaded geometries lose several sources at once (incl. everything <vertices> names besides the
+        # positions), in one geometry or in all of them
+        rm = {'op': 'geom', 'gi': rng.randrange(64), 'how': 'src_remove_many', 'all': rng.random() < 0.6,
+              'r': rng.randrange(1 << 30), 'pos': rng.randrange(64), 'pos2': 0, 'pos3': 0, 'n': rng.choice([2, 3, 5]), 'kind': None}
+        ops.insert(rng.randint(0, len(ops)), rm)
     if base.get('split') is not None and rng.random() < 0.6:
         # a document loaded with two library elements of a kind: whole lists emptied (and refilled),
         # so that the last write happens in each of those states
@@ -248,7 +265,7 @@ def run(ctx):
     quick = ctx.quick()
     cases = corpus_cases()
     ncorpus = len(cases)
-    nrand = 700 if quick else 4000
+    nrand = 1200 if quick else 4000
     for _ in range(nrand):
         cases.append(gen_case(ctx.rng, 12 if quick else 40))
     exh = list(exhaustive_cases(2, 5) if quick else exhaustive_cases(4, 6))
